@@ -234,6 +234,10 @@ class CoEServer:
 
     mbx_out_size: size of the mailbox the MASTER writes (slave receive mbx)
     mbx_in_size: size of the mailbox the master reads (slave send mailbox)
+
+    Errors of the *value* (missing object, read-only, wrong length for a
+    fixed entry) are answered with an abort already at the initiate request
+    (see `aborts`), they are no Deviation and never show up in `downloads`.
     """
     def __init__(self, od, mbx_out_size, mbx_in_size, *, station=0,
                  check_counter=True):
